@@ -171,6 +171,24 @@ def gen_read_cases(c, P):
                 mem = [("gz", ma, da), (kb, mb, body), (k3, mc, P["one"])]
                 add(ma + mb + mc, [] if d % 2 else rand_frags(rng, len(ma) + len(mb) + len(mc), 5000), [rng.choice((4096, 65536))],
                     ("ok", da + body + P["one"]), "read/concat/member-ends-at-refill-boundary%+d/%s" % (d, kb), mem)
+    # --- xz streams of every preset, extreme mode and large dictionaries (the decoder must not impose a memory limit)
+    xz_variants = [("preset%d" % p_, {"preset": p_}) for p_ in range(0, 10)] + [("preset9e", {"preset": 9 | lzma.PRESET_EXTREME})]
+    for dict_mb in (8, 64, 128, 256):
+        xz_variants.append(("dict%dMiB" % dict_mb, {"filters": [{"id": lzma.FILTER_LZMA2, "preset": 0, "dict_size": dict_mb << 20}]}))
+    for name, kw in xz_variants:
+        if c.tier == "quick" and name in ("preset7", "preset8", "preset9e"):
+            continue            # same 64 MiB dictionary as preset9 / dict64MiB; their encoders need most of a second each
+        m = lzma.compress(P["text"], format=lzma.FORMAT_XZ, **kw)
+        add(m, rand_frags(rng, len(m), 700), [4096], ("ok", P["text"]), "read/xz/encoder-%s" % name, [("xz", m, P["text"])])
+    # --- a deflate stream cut exactly where the decoded bytes end cleanly (sync-flush point, stored-block
+    #     boundary, only the trailer missing): nothing in the decoded data betrays the truncation
+    for lvl in (0, 6):
+        co = zlib.compressobj(lvl, zlib.DEFLATED, 31)
+        part1 = co.compress(b"first line\nsecond line\n") + co.flush(zlib.Z_SYNC_FLUSH)
+        part2 = co.compress(b"third line\n" * 50) + co.flush(zlib.Z_FULL_FLUSH)
+        whole = part1 + part2 + co.compress(b"last\n") + co.flush()
+        for cut in sorted(set([len(part1), len(part1) + len(part2)] + list(range(len(whole) - 8, len(whole))))):
+            add(whole[:cut], rand_frags(rng, cut, 40), [4096], ("err",), "read/gz/cut-at-flush-point-or-trailer")
     # --- truncation at every byte of small streams; and of a second member
     for k in kinds:
         m = enc(k, P["tiny"])
@@ -266,6 +284,12 @@ def partial_drain_events(events):
     return sum(1 for a, b in pairs if b.flag == 0), sum(1 for a, b in pairs if b.flag != 0)
 
 
+def bz_full_at_flush_events(events):
+    """BZ2_bzCompress(BZ_RUN) ended a write() with avail_in = 0 and avail_out = 0, and BZ_FINISH came next"""
+    calls = [x for x in events if not isinstance(x, tuple) and x.rc is not None and x.fn == "bzCompress"]
+    return sum(1 for a, b in zip(calls, calls[1:]) if a.flag == 0 and a.ain2 == 0 and a.aout2 == 0 and b.flag == 2)
+
+
 def gen_write_cases(c, P):
     rng = c.rng
     seqs = [[], ["f"], ["f", "f"], ["w"], ["w", "f", "w"], ["w", "f", "w", "f"],
@@ -317,6 +341,14 @@ def gen_write_cases(c, P):
                               "aimed": comp == "gzip" and tail != ["f"]})
     if not hits:
         c.broken.append("generator: no payload found that leaves 1..5 free bytes in the gzip output buffer (search budget exhausted)")
+    # bzip2 (kMinOutput = 1): the 4096-byte output buffer exactly FULL when flush() starts.  bzip2 emits a block
+    # only when its 900k block is complete; a single write() whose last byte completes the block leaves
+    # avail_in = 0 with the buffer full and output still pending.  The exact length depends on the run-length
+    # pre-pass: candidates around 900000-19+1, the codec log tells which one hit (see bz_full_at_flush_events).
+    base = bytes(rng.randrange(256) for _ in range(900100))
+    for n in range(899978, 899988):
+        cases.append({"comp": "bzip2", "ops": ["w" + base[:n].hex(), "f", "w" + P["tiny"].hex()], "data": base[:n] + P["tiny"],
+                      "bucket": "write/bzip2/block-completed-by-the-last-byte-of-a-write", "nomodel": True})
     return cases
 
 
@@ -468,13 +500,14 @@ def main(argv):
     if drv is None:
         c.broken.append("extraction/driver build failed: " + dlog[-600:])
     else:
-        mlines = [lines[0]] + [l + " " + codeclog.log_token(ev) for l, ev in zip(lines[1:], events[1:])]
+        nomodel = set(1 + len(rcases) + i for i, x in enumerate(wcases) if x.get("nomodel"))
+        mlines = [lines[0]] + [("K" if i in nomodel else l + " " + codeclog.log_token(ev)) for i, (l, ev) in enumerate(zip(lines[1:], events[1:]), 1)]
         rc, mout, merr = codeclog.run_lines_bigstack(drv, mlines, timeout=1800)
         if len(mout) != len(mlines):
             c.broken.append("model driver produced %d lines for %d cases (rc %s) %s" % (len(mout), len(mlines), rc, merr[-300:]))
         else:
             truncated = [any(isinstance(e, tuple) and e[0] == "X" for e in ev) for ev in events]
-            dis = [(l, a, b) for l, a, b, t in zip(lines, mout, results, truncated) if a != b and b != "SKIPPED" and not t]
+            dis = [(l, a, b) for i, (l, a, b, t) in enumerate(zip(lines, mout, results, truncated)) if a != b and b != "SKIPPED" and not t and i not in nomodel]
             c.cov["traces_validated_against_impl"] += len(lines)
             if dis:
                 l, a, b = min(dis, key=lambda d: len(d[0]))
@@ -540,6 +573,11 @@ def main(argv):
             if r is not None and (r[0] != 0 or r[1] != x["data"]):
                 c.violation("write-cli-decoder-disagrees: %s -dc exit %d, %d bytes, expected %d" % (x["comp"], r[0], len(r[1]), len(x["data"])), rep)
         contract_encoder(c, ev, x["comp"])
+        if x["comp"] == "bzip2":
+            nb = bz_full_at_flush_events(ev)
+            if nb:
+                dist = c.cov["distribution"]
+                dist["boundary/bzip2-buffer-exactly-full-at-flush()"] = dist.get("boundary/bzip2-buffer-exactly-full-at-flush()", 0) + nb
         if x["comp"] == "gzip":
             n_w, n_f = partial_drain_events(ev)
             dist = c.cov["distribution"]
@@ -551,9 +589,33 @@ def main(argv):
                 # (python's zlib and the linked one may emit differently; what counts is that both drains were hit at all, below)
                 dist["boundary/aimed-case-missed"] = dist.get("boundary/aimed-case-missed", 0) + 1
 
+    if not c.cov["distribution"].get("boundary/bzip2-buffer-exactly-full-at-flush()") and "SKIPPED" not in results:
+        c.broken.append("generator: bzip2 'output buffer exactly full when flush() starts' was not exercised")
     for kind_ in ("write()", "flush()"):
         if not c.cov["distribution"].get("boundary/gzip-partial-buffer-drained-in-%s" % kind_) and "SKIPPED" not in results:
             c.broken.append("generator: the partial-buffer drain in %s (1..5 free bytes, kMinOutput boundary) was not exercised" % kind_)
+
+    # --- util::FilePiece on a pipe (file_piece.cc): one layer of compression is removed, not two -- a
+    #     pipe carrying x.gz.gz (any inner x outer codec) yields exactly the inner compressed bytes; plain
+    #     and singly compressed pipes yield the text
+    ftext = b"".join(b"line %d\n" % i for i in range(400))
+    fcases = [("plain", ftext, ftext)]
+    for ki in ("gz", "bz", "xz"):
+        inner = enc(ki, ftext)
+        fcases.append((ki, inner, ftext))
+        for ko in ("gz", "bz", "xz"):
+            fcases.append(("%s-inside-%s" % (ki, ko), enc(ko, inner), inner))
+    flines = ["F %s %s" % (st_.hex(), csv(rand_frags(c.rng, len(st_), 300))) for _, st_, _ in fcases]
+    fres, _ = codeclog.run_logged(impl, flines, timeout_case=15, preload=False, max_bad=4)
+    for (name, st_, want), res in zip(fcases, fres):
+        c.count(("F", name), bucket="filepiece/pipe/%s" % name)
+        got = bytes.fromhex(res.split(" ")[1]) if res.startswith("OK ") and res.split(" ")[1] != "-" else (b"" if res.startswith("OK") else None)
+        strip1 = lambda b: b[:-1] if b.endswith(b"\n") else b
+        if got is None or strip1(got) != strip1(want):
+            c.violation("filepiece-pipe-%s: FilePiece on a pipe carrying %s data gave %s instead of %s" % (
+                "double-decompression" if "inside" in name else "wrong-bytes", name, res[:60], "the inner compressed bytes" if "inside" in name else "the text"),
+                {"op": "FilePiece", "harness_line": ("F %s -" % st_.hex())[:4000], "impl": res[:200],
+                 "how": "printf ... | gzip | gzip | <any tool reading stdin through util::FilePiece>   (or hx_compress: F <hex> -)"})
 
     for (lvl, d), res, ev in zip(zcases, z_res, z_ev):
         rep = {"op": "GZCompress", "harness_line": ("Z %d %s" % (lvl, hexd(d)))[:4000], "level": lvl, "data_len": len(d), "impl": res[:200]}
